@@ -32,9 +32,11 @@
       consistency_is_required = changing_cause is not None
       consistency_is_achieved = consistency_time is None
       if reason == GONE: consistency_is_achieved = True
-      if required and not achieved and not patch and consistency_time:
-          unslept = await aiotime.sleep(consistency_time - loop.time(), wakeup=stream_pressure)
-          consistency_is_achieved = unslept is None
+      if required and not achieved and consistency_time:
+          if consistency_time <= loop.time(): consistency_is_achieved = True      -- fix 5dff3c1
+          elif not patch:
+              unslept = await aiotime.sleep(consistency_time - loop.time(), wakeup=stream_pressure)
+              consistency_is_achieved = unslept is None
       consistency_is_achieved = consistency_is_achieved and patch_initially_empty
       if required and not achieved: return                       -- early: to PATCHing / the next event
       process_changing_cause(...)                                -- change-detecting handlers
@@ -137,14 +139,18 @@ def stepStage (deadline : Option Int) (it : Iter) (ps : PS) : Stage → PS
   | .spawning => { ps with low := ps.low ++ [(Stage.spawning, ps.clock)] }
   | .barrier =>
     let pre : Bool := deadline.isNone || it.gone
+    -- `required and not achieved and consistency_time` (0.0 is falsy)
+    let waiting : Bool := it.required && !pre && (match deadline with | some d => decide (d ≠ 0) | none => false)
+    -- `consistency_time <= loop.time()`: the waiting time is over, patch or no patch (fix 5dff3c1)
+    let past : Bool := waiting && (match deadline with | some d => decide (d ≤ ps.clock) | none => false)
     let slept : Option Slept :=
       match deadline with
       | some d =>
-        -- `required and not achieved and not patch and consistency_time` (0.0 is falsy)
-        if it.required && !pre && it.patchMid && decide (d ≠ 0)
+        -- `elif not patch: sleep(consistency_time - loop.time(), wakeup=stream_pressure)`
+        if waiting && !past && it.patchMid
         then some (sleepUntil d ps.clock it.pressure it.wake it.lag) else none
       | none => none
-    let ach1 : Bool := match slept with | some s => s.timedOut | none => pre
+    let ach1 : Bool := past || (match slept with | some s => s.timedOut | none => pre)
     { ps with slept := slept, decided := some (ach1 && it.patchInit),
               clock := match slept with | some s => s.tEnd | none => ps.clock }
   | .changing =>
